@@ -311,8 +311,8 @@ def run(ctx: Ctx):
             continue
         for m in ("FIRST", "ALL"):
             d = morph.materialise(rec.datum)
-            if morph.has_iter(morph.enc(rec.datum)):
-                continue
+            if morph.has_iter(morph.enc(rec.datum)) or isinstance(rec.datum, (type, morph.FreshDatum)):
+                continue   # one-shot iterators cannot be re-followed; a class object as datum is C04's known finding
             try:
                 eng.real.loader(m, True, rec.spec.hint)(d)
             except LoadError as e:
